@@ -11,7 +11,10 @@ import (
 	"fmt"
 	"io"
 	"mime/multipart"
+	"net/http"
+	"net/http/httptest"
 	"net/url"
+	"sort"
 	"strconv"
 	"strings"
 	"sync"
@@ -550,6 +553,14 @@ func genFrag(rt *rapid.T, n int) s3x.Frag {
 }
 
 func c01Replay(check string, raw json.RawMessage) ([]disc, error) {
+	if check == "real-server" {
+		var cs c01Case
+		if err := json.Unmarshal(raw, &cs); err != nil {
+			return nil, err
+		}
+		ds, _ := c01RealServer(cs.Backend)
+		return ds, nil
+	}
 	var cs c01Case
 	if err := json.Unmarshal(raw, &cs); err != nil {
 		return nil, err
@@ -570,9 +581,84 @@ func TestC01(t *testing.T) {
 	})
 }
 
+// c01RealServer runs the handler behind a real net/http server (the in-process recorder of s3x does
+// not reproduce what net/http adds to a response, e.g. a Content-Type guessed from the body) and
+// compares the entity headers of GET and HEAD.
+func c01RealServer(k backends.Kind) (ds []disc, n int) {
+	st := backends.Must(k, backends.Options{})
+	defer st.Close()
+	if err := ensureBucket(st, "bk0"); err != nil {
+		panic(err)
+	}
+	srv := httptest.NewServer(st.Handler)
+	defer srv.Close()
+	do := func(m, p string, body []byte, hdr [][2]string) (*http.Response, []byte, error) {
+		rq, err := http.NewRequest(m, srv.URL+p, bytes.NewReader(body))
+		if err != nil {
+			return nil, nil, err
+		}
+		for _, kv := range hdr {
+			rq.Header.Set(kv[0], kv[1])
+		}
+		r, err := http.DefaultClient.Do(rq)
+		if err != nil {
+			return nil, nil, err
+		}
+		defer r.Body.Close()
+		b, err := io.ReadAll(r.Body)
+		return r, b, err
+	}
+	bodies := map[string][]byte{"html": []byte("<html><body>hi</body></html>"), "text": []byte("plain text\n"), "png": append([]byte("\x89PNG\r\n\x1a\n"), make([]byte, 40)...), "empty": nil,
+		"json": []byte(`{"a":1}`), "gzip": {0x1f, 0x8b, 8, 0, 0, 0, 0, 0}, "big": bytes.Repeat([]byte("<?xml version=\"1.0\"?><a/>"), 3000)}
+	var names []string
+	for name := range bodies {
+		names = append(names, name)
+	}
+	sort.Strings(names)
+	for _, name := range names {
+		for vi, hdr := range [][][2]string{nil, {{"Content-Type", "text/x-mine"}}, {{"Content-Encoding", "identity"}, {"X-Amz-Meta-K", "v"}}, {{"Content-Type", ""}}} {
+			key := fmt.Sprintf("real/%s-%d", name, vi)
+			body := bodies[name]
+			n++
+			if r, _, err := do("PUT", "/bk0/"+key, body, hdr); err != nil || r.StatusCode != 200 {
+				ds = append(ds, dsc("put-refused", "backend=%s real server: PUT %s: %v %v", k, key, r, err)...)
+				continue
+			}
+			g, gb, err1 := do("GET", "/bk0/"+key, nil, nil)
+			h, hb, err2 := do("HEAD", "/bk0/"+key, nil, nil)
+			if err1 != nil || err2 != nil || g.StatusCode != 200 || h.StatusCode != 200 {
+				ds = append(ds, dsc("read-failed", "backend=%s real server: GET/HEAD %s: %v %v", k, key, err1, err2)...)
+				continue
+			}
+			if !bytes.Equal(gb, body) || len(hb) != 0 {
+				ds = append(ds, dsc("body", "backend=%s real server: GET %s returned %d bytes for %d uploaded, HEAD %d bytes", k, key, len(gb), len(body), len(hb))...)
+			}
+			for _, eh := range []string{"Content-Type", "Content-Length", "Content-Encoding", "Content-Disposition", "Etag", "Last-Modified", "X-Amz-Meta-K"} {
+				if gv, hv := g.Header.Values(eh), h.Header.Values(eh); fmt.Sprint(gv) != fmt.Sprint(hv) {
+					ds = append(ds, dsc("head-differs-from-get", "backend=%s real server: object %s (PUT headers %v): GET reports %s %q, HEAD reports %q", k, key, hdr, eh, gv, hv)...)
+				}
+			}
+			for _, kv := range hdr {
+				if got := g.Header.Get(kv[0]); got != kv[1] {
+					ds = append(ds, dsc("metadata", "backend=%s real server: object %s: GET header %s = %q, sent %q", k, key, kv[0], got, kv[1])...)
+				}
+			}
+		}
+	}
+	return ds, n
+}
+
 func c01Run(t *testing.T, c *evid.Collector) {
 	defer c01CloseStacks()
 	kinds := kindsFromEnv(backends.All)
+	if evid.Shard() == 0 {
+		for _, k := range kinds {
+			ds, n := c01RealServer(k)
+			cs := c01Case{Backend: k, Key: "(real net/http server)", Path: "real-server"}
+			c.Case(evid.FP("real-server", string(k)), true, func() interface{} { return cs }, "backend:"+string(k), "src:real-server", fmt.Sprintf("objects:%d", n))
+			report(c, "real-server", ds, cs)
+		}
+	}
 	one := func(cs c01Case, src string) bool {
 		klen := len(cs.Key)
 		if cs.Path == "copy" && !cs.CopySelf {
